@@ -323,7 +323,9 @@ def run(ctx):
         "measured and alpha := 1 - T*(1 +- eps), eps = 1e-12, 1e-9, 1e-7, 1e-5, 1e-3 (warning required on one side, "
         "forbidden on the other).  8 / 60 contours with short-decimal cell sizes (0.1, 0.3, 0.07 ..: fm judged exactly "
         "against cell_averaged_joint_pdf), the DNVGL sea state on 0.1/0.1, an i.i.d. model with exact ties at the "
-        "threshold, all-default contours whose default upper limit is negative (RuntimeWarning expected).  Hidden state: 8 (quick) / 40 (thorough) pairs of look-alike models - same structure, "
+        "threshold, all-default contours whose default upper limit is negative (RuntimeWarning expected), 14 / ~40 integer-typed "
+        "grids (limits as python int / np.int64, cell sizes as int, list of ints, int on some axes and float on "
+        "others, 2-D and 3-D) judged against the harness's float reference.  Hidden state: 8 (quick) / 40 (thorough) pairs of look-alike models - same structure, "
         "families, fixed parameters, dependence functions as parameter-less closures with different constants - run "
         "A, B, A on one grid, and the cheap ordinary contours a second time in reverse order.  distinct = distinct (model structure+parameters, alpha, limits, deltas); non-trivial = no "
         "exception, not on the warn path, at least 4 cells enclosed and at least one cell excluded")
@@ -367,7 +369,9 @@ def run(ctx):
     # decimal cell sizes (exact fm), tied i.i.d. models, negative default limits (RuntimeWarning expected)
     extra = H.decimal_delta_cases(vc, np.random.default_rng(ctx.seed * 53 + 9), cfgs, ctx.pick(8, 60))
     extra += H.negative_default_limit_cases()[: ctx.pick(1, 2)]
-    kept_x = judge(ctx, vc, extra, "decimal cell sizes / ties / negative default limits", base_id=150000)
+    extra += H.integer_grid_cases(vc, np.random.default_rng(ctx.seed * 59 + 10), cfgs, ctx.pick(10, 60))
+    kept_x = judge(ctx, vc, extra, "decimal cell sizes / ties / negative default limits / integer grids",
+                   base_id=150000)
     ctx.notes["decimal_delta_and_default_limit_contours"] = len(kept_x)
     # hidden state between contours: look-alike models back to back on one grid (A, B, A), and the
     # cheap ordinary contours a second time in reverse order
